@@ -178,6 +178,8 @@ func edits() []Op {
 		tog("dep:missing", func(v *Vars) { v.Missing = !v.Missing }),
 		tog("dep:cycle", func(v *Vars) { v.Cycle = !v.Cycle }),
 		tog("chatty", func(v *Vars) { v.Chatty = !v.Chatty }),
+		tog("always:gen", func(v *Vars) { v.AlwaysGen = !v.AlwaysGen }),
+		tog("sabotage:leaf", func(v *Vars) { v.Sabotage = !v.Sabotage }),
 		del("delete:gen/g.txt", "gen/g.txt"),
 		del("delete:out/mid", "out/mid"),
 		{Name: "stray-files", Edit: func(s *State) bool {
@@ -300,7 +302,7 @@ func alphabet(prop string, thorough bool) []Op {
 		if thorough {
 			return pick(all...)
 		}
-		return pick("edit:src/a.txt", "edit:pkg/b.txt", "const:K", "edge:top->leaf", "fail:gen", "fail:leaf", "delete:gen/g.txt", "target:pkg:other",
+		return pick("edit:src/a.txt", "edit:pkg/b.txt", "const:K", "edge:top->leaf", "fail:gen", "fail:leaf", "delete:gen/g.txt", "always:gen",
 			"build:top", "build:mid", "dry:top", "dry:mid")
 	case "C14":
 		if thorough {
@@ -312,7 +314,7 @@ func alphabet(prop string, thorough bool) []Op {
 		if thorough {
 			return pick(all...)
 		}
-		return pick("edit:src/a.txt", "const:K", "fail:gen", "fail:leaf", "edge:top->leaf", "dep:missing", "chatty", "fail:mid",
+		return pick("edit:src/a.txt", "const:K", "fail:gen", "fail:leaf", "edge:top->leaf", "dep:missing", "chatty", "sabotage:leaf",
 			"build:top", "build:mid", "build:top:always", "dry:top")
 	}
 	vlib.Fatalf("no alphabet for %s", prop)
@@ -446,7 +448,7 @@ func (x *searcher) checkBuild(s, n *State, o buildOpts, res *buildResult) {
 	evaluating := evaluatingSet(res.Events)
 	// Evaluating <=> the body ran (non-dry)
 	for _, t := range v.targets() {
-		if evaluating[t] != res.Executed[t] && (x.prop == "C18" || x.prop == "C01") {
+		if evaluating[t] != res.Executed[t] && (x.prop == "C18" || x.prop == "C01") && !recordFault(res.Events, t) {
 			x.violation("evaluating-vs-body", fmt.Sprintf("%s: evaluating event=%v but body ran=%v", t, evaluating[t], res.Executed[t]), s, n.Hist, res)
 		}
 	}
@@ -458,6 +460,9 @@ func (x *searcher) checkBuild(s, n *State, o buildOpts, res *buildResult) {
 					continue
 				}
 				why := s.M.whyStale(t, v, before)
+				if why == "" && t == tGen && v.AlwaysGen {
+					why = "declared-always"
+				}
 				if why == "" {
 					// a dependency that executed in this build, or whose generated source changed
 					for _, d := range v.deps(t) {
@@ -587,7 +592,7 @@ func main() {
 	}
 	ops := alphabet(*fProp, r.Thorough())
 	depth := 5
-	if len(ops) <= 12 {
+	if len(ops) <= 12 && *fProp != "C18" {
 		depth = 6
 	}
 	if r.Thorough() {
@@ -611,9 +616,9 @@ func main() {
 		names = append(names, fmt.Sprintf("focused(depth %d): %s", f.depth, strings.Join(f.ops, " ")))
 	}
 	if *fProp == "C18" {
-		n := 8
+		n := 7
 		if r.Thorough() {
-			n = 11
+			n = 10
 		}
 		x.lineChunkings(r, n)
 		r.Extra["line_writer_texts_max_len"] = n
